@@ -205,6 +205,15 @@ func runSolver(sp solverSpec, query string, timeoutMs int) Answer {
 	_ = cmd.Run()
 	ms := time.Since(t0).Milliseconds()
 	raw := out.String()
+	// skip solver warnings in front of the answer
+	for strings.HasPrefix(strings.TrimSpace(raw), "WARNING") || strings.HasPrefix(strings.TrimSpace(raw), "(warning") {
+		t := strings.TrimSpace(raw)
+		i := strings.IndexByte(t, '\n')
+		if i < 0 {
+			break
+		}
+		raw = t[i+1:]
+	}
 	first := strings.TrimSpace(raw)
 	if i := strings.IndexByte(first, '\n'); i >= 0 {
 		first = strings.TrimSpace(first[:i])
